@@ -150,6 +150,7 @@ def apalache_inductive(module, ind_inv, cinit="ConstInit", next_="NextA", init="
             cmd = ["apalache-mc", "check", "--out-dir=" + md, "--cinit=" + cinit, "--next=" + next_] + args + [os.path.join(SPEC, module + ".tla")]
             e = dict(os.environ)
             e.pop("JAVA_TOOL_OPTIONS", None)
+            e["TMPDIR"] = md   # the launcher's `mktemp -d -t SANY...` otherwise leaves one directory in /tmp per run
             p = subprocess.run(cmd, cwd=md, env=e, stdout=subprocess.PIPE, stderr=subprocess.STDOUT, text=True, timeout=timeout)
             ok = "The outcome is: NoError" in p.stdout
             err = "The outcome is: Error" in p.stdout
